@@ -24,15 +24,31 @@ RULE = ('documents are generated from the schema extracted from the Rust model f
         'collections, boundary integers, integer-valued and dyadic floats), loose documents (aliases, null for optional, '
         'omitted defaulted fields, unknown keys, shuffled keys, tag in any position, positional arrays, {"variant": null}), '
         'and a separate malformed stream (missing required field, duplicate key, wrong type, null for required, integer out '
-        'of range, float literal for integer, unknown variant / tag). non-trivial = distinct accepted documents.')
+        'of range, float literal for integer, unknown variant / tag). non-trivial = distinct accepted documents. '
+        'feed-back stream (solver -> write_pragmatic -> read_init_solution): (i) small random problems (alternative places, two windows, '
+        'multi jobs told apart by tags, jobs at the shift start / end location, hubs); (ii) boundary scenarios: a chain of jobs on a '
+        'line whose windows leave no slack, so that every service start is pinned to the END or the START of its window (also '
+        'zero-length windows, zero durations, a second window one second after the service end), with optional breaks given as OFFSET '
+        'interval or as time window (with / without location, alternative places, tagged, one or two per shift, both skip policies) '
+        'and reloads (tagged, two at one location, with windows) placed in the chain so that they start exactly at the latest / '
+        'earliest moment of their interval; non-trivial there = a solved problem with at least two served activities; the input '
+        'distribution records for every run how many breaks / reloads / jobs start at the latest or earliest moment per span kind.')
 TRUSTED = ['tools/serde2coq.py (translation of serde attributes into the codec combinators of Model/SerdeSem.v; validated on every '
            'run by comparing enc(dec(doc)) with the real serialize(deserialize(doc)) on generated documents)',
            'serde_json text layer (tokenizer, escapes, shortest float printing / float parsing): not modelled, float text round trip '
-           'validated differentially (op flt) within the one-ulp tolerance the property grants']
+           'validated differentially (op flt) within the one-ulp tolerance the property grants',
+           'tools/props/c11.py::init_singles / init_vehicle_singles (how job_reader.rs builds the core singles of jobs, optional breaks and '
+           'reloads and names the conditional jobs) and written_tours (how the reader resolves location / time of a written activity): '
+           'inputs of the model of read_init_solution; a mistake shows as a model/implementation disagreement',
+           'the solver itself (which tour it returns) is not modelled: the feed-back theorems speak about ANY tour whose activities are '
+           'placed within their windows, the campaign feeds the real solver output through writer and reader']
 ASSUMPTIONS = ['floats in documents are finite (serde_json cannot parse a non-finite number; a non-finite f64 built in memory is '
                'written as null and is outside the claim)',
                'integer literals used for f64 fields are below 2^53 in magnitude (exact conversion)',
-               'documents nest less deeply than serde_json\'s recursion limit (128)']
+               'documents nest less deeply than serde_json\'s recursion limit (128)',
+               'feed-back: jobs / breaks / reloads of one vehicle shift that location and time cannot tell apart carry distinct tags '
+               '(the documented requirement; hypotheses `well_written` of C11_init_roundtrip); no required breaks, no vicinity clustering '
+               '(commute / transit stops are refused by read_init_solution by design), no recharge stations; integer times']
 
 REPO = os.environ.get('VERIF_REPO', '/repo')
 _SCHEMA = None
@@ -479,7 +495,15 @@ class Gen:
 
 
 def gen_doc(rng, kind, mode, rr, full=None):
+    global _GEN_ERROR
     root = {'problem': 'Problem', 'matrix': 'Matrix', 'solution': 'Solution'}[kind]
+    try:
+        schema()
+    except serde2coq.TranslateError as e:
+        # the Rust model files use something the translator does not understand: no schema, no generated documents; the
+        # stub Generated/*.v (regenerate) already fails the proof obligations, the other streams still run
+        _GEN_ERROR = str(e)
+        return None
     for _ in range(20):
         g = Gen(rng, mode, rr)
         g.full = full
@@ -859,6 +883,9 @@ def init_boundary_problem(rng):
 
     m = rng.range(2, 4)
     n_breaks = rng.choice([0, 1, 1, 1, 1, 2])
+    required_break = rng.chance(1, 12)          # a REQUIRED break (reserved time, not a job) instead of optional ones
+    if required_break:
+        n_breaks = 0
     with_reload = rng.chance(1, 3)
     offset_kinds = [rng.chance(1, 2) for _ in range(n_breaks)]
     # chain: jobs 1..m, break(s) after job kb (>= 1), reload after job kr (1 <= kr < m)
@@ -986,6 +1013,15 @@ def init_boundary_problem(rng):
         shift['breaks'] = [br for _, _, br in breaks]
         if rng.chance(1, 2):
             shift['breaks'] = shift['breaks'][::-1]
+    if required_break:
+        e = rng.range(1, max(2, t))
+        l = e + rng.choice([0, 5, 30])
+        if rng.chance(1, 2):
+            shift['start']['latest'] = rfc(EPOCH0)
+            tm = {'earliest': e, 'latest': l}
+        else:
+            tm = {'earliest': rfc(EPOCH0 + e), 'latest': rfc(EPOCH0 + l)}
+        shift['breaks'] = [{'time': tm, 'duration': rng.choice([2, 10, 30])}]
     if reloads:
         shift['reloads'] = reloads
     if rng.chance(1, 3):
@@ -1168,8 +1204,11 @@ def init_compare_write(c, impl, wr):
     doc = {(t['vid'], t['shift']): [a for a in t['acts'] if a['type'] not in ('departure', 'arrival')] for t in written_tours(impl['written'])}
     if len(st) != len(wr):
         return 'model of the writer evaluated %d tours, %d expected' % (len(wr), len(st))
+    required = init_has_required_breaks(problem)
     for (key, _), macts in zip(st, wr):
         dacts = doc.get(key, [])
+        if required:
+            continue        # insert_reserved_times_as_breaks (break_writer.rs) rewrites the stops afterwards: not modelled
         if len(dacts) != len(macts):
             return 'tour %s: %d job activities written, the model of the writer has %d' % (key, len(dacts), len(macts))
         for d, m in zip(dacts, macts):
@@ -1396,6 +1435,21 @@ def init_shapes(problem, impl):
     return out
 
 
+def init_has_required_breaks(problem, vid=None, only=False):
+    """some shift (of vehicle vid) has a required break (only: ... and no shift of it has an optional break)"""
+    req = opt = False
+    for v in problem['fleet']['vehicles']:
+        if vid is not None and vid not in v['vehicleIds']:
+            continue
+        for shift in v['shifts']:
+            for b in shift.get('breaks') or []:
+                if 'places' in b:
+                    opt = True
+                else:
+                    req = True
+    return req and not (only and opt)
+
+
 def init_offset_break_cause(problem, impl, vid):
     """two structural situations in which writer and reader count the OFFSET interval of an optional break from different
     instants (findings C11-F6, C11-F7); None when neither explains why the first break of the vehicle's tour is not matched"""
@@ -1443,6 +1497,11 @@ def init_refusal_class(problem, impl):
     err = impl.get('err', '')
     shapes = init_shapes(problem, impl)
     m = re.search(r"cannot match '(\w+)' for '([^']*)'", err)
+    if 'transit property' in err:
+        return 'required-break-written-as-transit-stop' if init_has_required_breaks(problem) else 'transit-stop'
+    if m and m.group(1) == 'break' and init_has_required_breaks(problem, m.group(2), only=True):
+        # the vehicle has required breaks and no optional one: the written break activity has no conditional job at all
+        return 'required-break-written-as-break-activity'
     if m and m.group(1) == 'break':
         known = init_offset_break_cause(problem, impl, m.group(2))
         if known:
@@ -1686,6 +1745,8 @@ def classify(c, impl):
         if impl.get('status') in ('ok', 'read-err'):
             if c.get('scenario'):
                 labs.append('init:scenario=' + c['scenario'])
+            if init_has_required_breaks(json.loads(c['problem'])):
+                labs.append('init:required-break')
             seen = set()
             for per in init_shapes(json.loads(c['problem']), impl).values():
                 for t, _, k, p in per['vehicle']:
@@ -1706,7 +1767,7 @@ def extra_coverage():
     return {'translator_error': _GEN_ERROR} if _GEN_ERROR else {}
 
 
-MANIFEST_TEXT = ('Machine-checked proof (Coq, 28 theorems, no axioms). (a) tools/serde2coq.py translates the serde-derive items of the '
+MANIFEST_TEXT = ('Machine-checked proof (Coq, 46 theorems, no axioms). (a) tools/serde2coq.py translates the serde-derive items of the '
                  'pragmatic problem / matrix / solution model files (59 types; field order, Option, Vec, rename, rename_all, alias, tag, '
                  'untagged, skip_serializing_if, default) into Coq types, encoders to a JSON tree and decoders following serde semantics, '
                  'and proves for every type with one generic tactic that decode(encode x) = x (6 types up to the normalisation of the one '
@@ -1715,16 +1776,29 @@ MANIFEST_TEXT = ('Machine-checked proof (Coq, 28 theorems, no axioms). (a) tools
                  '(ids, coordinates, |demand|, sign -> task kind, duration, window, capacity, amount, profile) for every hash order; the '
                  'vehicle ids of distinct vehicle rows are distinct (since repair 9df6aa4 of /repo) and the import is total: tables with a DEMAND of '
                  'i32::MIN, whose magnitude is not a demand value, are rejected (exactly those) and |demand| is exact in every accepted table '
-                 '(since repair 1cad789; the witnesses are restated about the pre-fix code). (b) model of the activity '
-                 'matcher (get_job_tag, match_place, multi-job dispatch): a written activity matches back to its own sub-job / place / window '
-                 'under explicit distinguishability conditions, both of which are shown necessary by witnesses. The models are tied to /repo '
-                 'on every run: schema-driven generated documents (canonical, loose, malformed) through the real deserialize/serialize vs '
-                 'enc(dec doc) evaluated in Coq; generated CSV tables through read_csv_problem + validation; small generated problems solved by '
-                 'the real solver, written, read back with read_init_solution and compared per vehicle shift, in order, with place and window.')
-MANIFEST_NOTE = ('Trusted: Coq kernel + vm_compute; tools/serde2coq.py (validated each run); harness and generators. Validated only: the '
-                 'serde_json text layer (float printing/parsing: differential stream with one-ulp oracle), BTreeMap ordering, csv tokenizer, '
-                 'read_init_solution bookkeeping and the writer (end-to-end campaign, no end-to-end theorem: the init theorems are about the '
-                 'matching rule). Known findings C11-F3..F5 (later window taken, same-location place taken, float text 2 ulps) are reported as '
-                 'KNOWN-FINDING and do not fail the check; C11-F1 / C11-F2 (CSV vehicle ids, CSV abs overflow) are repaired in /repo, their '
-                 'classes remain as regression classes and fail the check if the defects return.')
+                 '(since repair 1cad789; the witnesses are restated about the pre-fix code). (b) model of the feed-back path: the activity '
+                 'matcher (get_job_tag, match_place with the time-intersection rule TimeSpan::intersects for time windows AND offset intervals, '
+                 'inclusive at both ends; the whole dispatch of try_match_point_job: customer jobs, multi jobs, and the conditional jobs '
+                 '"<vehicle>_<type>_<shift>_<idx>" tried for break / reload / recharge activities), read_init_solution (actor lookup, '
+                 'added_jobs with the double-assignment guard, listed unassigned jobs, completion of the unassigned set) and the writer as far '
+                 'as it decides type / id / tag / time of an activity and the route start the reader derives. Theorems: the intersection rule '
+                 'is inclusive for both span kinds; an activity placed anywhere in its interval - its first and LAST moment included - is '
+                 'matched back to its own job / sub-job / place (window spans: the window; offset spans: the service interval); a tour and a '
+                 'whole document of well written activities are read without error with the same activities on the same vehicle shifts in the '
+                 'same order at the places the solver used and the same unassigned set (C11_init_roundtrip), with witnesses that each side '
+                 'condition is needed. The models are tied to /repo on every run: schema-driven generated documents (canonical, loose, '
+                 'malformed) through the real deserialize/serialize vs enc(dec doc) evaluated in Coq; generated CSV tables through '
+                 'read_csv_problem + validation; generated problems (random ones and no-slack boundary scenarios with optional breaks and '
+                 'reloads) solved by the real solver, written, read back with read_init_solution: the model of the writer is compared with the '
+                 'written document, the model of read_init_solution with what the implementation reads back (every activity of every tour, '
+                 'breaks and reloads included, unassigned set, refusal kind), and the property is evaluated on the implementation alone.')
+MANIFEST_NOTE = ('Trusted: Coq kernel + vm_compute; tools/serde2coq.py (validated each run); harness and generators; the plugin\'s replica of '
+                 'job_reader.rs (singles of jobs / breaks / reloads). Validated only: the serde_json text layer (float printing/parsing: '
+                 'differential stream with one-ulp oracle), BTreeMap ordering, csv tokenizer, the writer\'s stop grouping, create_core_route, '
+                 'Registry. Not generated: required breaks, recharge, vicinity clustering. Known findings reported as KNOWN-FINDING (they do '
+                 'not fail the check): C11-F3 (later window taken), C11-F4 (same-location place taken), C11-F5 (float text 2 ulps), C11-F6 '
+                 '(offset break + job served at the start location: the reader counts the offsets from the end of the merged departure stop '
+                 'and refuses the solver\'s solution), C11-F7 (tagged offset break after a reload is written without its tag and refused). '
+                 'C11-F1 / C11-F2 (CSV vehicle ids, CSV abs overflow) are repaired in /repo, their classes remain as regression classes and '
+                 'fail the check if the defects return.')
 MANIFEST_TECHNIQUE = 'Coq proof over executable model + vm_compute differential correspondence with the Rust implementation'
